@@ -6,13 +6,7 @@ import gen
 import vlib
 
 MANIFEST = {
-    "text": "Coq theorems over the VM model for EVERY program, all limits, every folding function: in strict mode every error an "
-            "iteration raises (thread-ending or stored by JUMPI) is appended to the error list and never dropped; every listed error "
-            "lies inside the code; permissive mode never records one of the four jump-target kinds (JUMP or JUMPI); the flag changes "
-            "nothing but the error list (same retired states, queue, fork counters, gas) and permissive errors are a subset of strict "
-            "errors, so when strict mode succeeds permissive mode succeeds on the same states. In the model the flag is read in "
-            "exactly one place; the tie to the code is the correspondence run of the real VM in BOTH modes, and the property "
-            "predicate is evaluated on the implementation's own outputs including the layouts of both whole analyses.",
+    "text": "Coq theorems over the VM model for EVERY program, all limits, every folding function: in strict mode every error an iteration raises (thread-ending or stored by JUMPI) is appended to the error list and never dropped; every listed error lies inside the code; permissive mode never records one of the four jump-target kinds (JUMP or JUMPI); the flag changes nothing but the error list (same retired states, queue, fork counters, gas) and permissive errors are a subset of strict errors, so when strict mode succeeds permissive mode succeeds on the same states. In the model the flag is read in exactly one place; the tie to the code is the correspondence run of the real VM in BOTH modes, and the property predicate is evaluated on the implementation's own outputs including the layouts of both whole analyses. Against the independent reference EVM (loop-free programs, generous limits): a bad jump the reference reaches must surface in strict mode (38), and EVERY fault the reference reaches -- bad destination or stack fault, per offset and class, also when several paths fault differently at one shared instruction -- must be in strict mode's list (39).",
     "note": "Trusted: Coq kernel + vm_compute; translator T1/T9; harness; hooks H2/H3. With a watchdog stop the Rust code returns only "
             "the StoppedByWatchdog error (earlier errors are dropped by the early return): the persistence theorem is about the error "
             "buffer, the check uses a never-stopping watchdog.",
@@ -23,6 +17,7 @@ MANIFEST = {
 CODES = {30: "result class does not match the error list", 31: "error located outside the code",
          32: "permissive mode recorded a jump-target error", 33: "states differ between strict and permissive mode",
          34: "permissive mode recorded an error strict mode did not", 35: "permissive mode dropped a non-jump error",
+         39: "a fault the reference EVM reaches (bad jump destination / stack fault at that offset) is missing from strict mode's error list",
          38: "the reference EVM reaches a jump with a bad destination, yet strict mode reported no error",
          36: "strict mode returned a layout but permissive mode failed or returned a different layout", 37: "panic"}
 
@@ -53,6 +48,8 @@ def check(ctx):
     # whether a bad jump is reachable, and strict mode must then report an error (code 38)
     for code in gen.c08_programs(rng, bw, 250 if ctx.quick else 4000):
         progs.setdefault((code, (30000000, 10, 50, 250, 394)), "reference-jumps")
+    for code in gen.trampoline_programs(rng, 150 if ctx.quick else 3000):
+        progs.setdefault((code, (30000000, 10, 50, 250, 394)), "shared-trampoline")
     keys = list(progs.keys())
     if ctx.replay_in:
         r = json.load(open(ctx.replay_in))["replay"]
@@ -78,7 +75,7 @@ def check(ctx):
                          (vlib.coq_bytes(c), lim[0], lim[1], lim[2], lim[3], lim[4], parts[0], parts[1], parts[2], parts[3]))
         header = ("From Coq Require Import String.\nFrom SLX Require Import Base gen.ValueSig SymVal VM AbiT VmCases SimCases.\n"
                   "Open Scope string_scope. Open Scope N_scope.\n")
-        bad = vlib.run_cases(ctx, "strict-permissive", header, terms, per_shard=min(100, max(1, len(terms) // 32 + 1)), fn="check_c17r")
+        bad = vlib.run_cases(ctx, "strict-permissive", header, terms, per_shard=min(100, max(1, len(terms) // 32 + 1)), fn="check_c17r2")
         decided = vlib.run_cases(ctx, "reference-decided", header, terms, per_shard=min(100, max(1, len(terms) // 32 + 1)), fn="c17_ref_decided")
         disagreements = []
         for idx, code in bad:
